@@ -23,10 +23,11 @@ for p in patches:
             if not line:
                 hits.append('%s:NO-VERDICT(%s)'%(prop,(r.stderr.strip().splitlines() or ['?'])[0][:120])); continue
             s=json.loads(line[0][len('INNER-SUMMARY '):])
+            if s.get('status')==2: hits.append('%s:NO-VERDICT(%s)'%(prop,(r.stderr.strip().splitlines() or ['?'])[0][:120]))
             for f in s['failed'] or []:
                 hits.append('%s @%s'%(f['Key'][:110],f['Pos']))
         real=[h for h in hits if 'NO-VERDICT' not in h]
         print('%-40s %s'%(os.path.basename(os.path.dirname(p))+'/'+os.path.basename(p), 'DETECTED' if real else ('no-verdict' if hits else 'missed')))
-        for h in hits[:6]: print('      ',h)
+        for h in hits[:int(os.environ.get('MAXHITS','6'))]: print('      ',h)
     finally:
         shutil.rmtree(tmp,ignore_errors=True)
